@@ -636,8 +636,9 @@ class ESME:
         smpp_message: Optional[SmppMessage]
         try:
             smpp_message = await pdu_handler(pdu, header)
-        except CancelledError:
-            # The PDU was read: user application gets it even if its handling was interrupted
+        except (Exception, CancelledError):
+            # The PDU was read: user application gets it even if its handling failed (e.g. the
+            # negative answer to a request could not be written) or was interrupted
             await self.hook.received(None, pdu, self.client_id)
             raise
 
@@ -825,14 +826,9 @@ class ESME:
                 command_status=header.command_status.name,
                 sequence_num=header.sequence_num,
             )
-            try:
-                await self._send_data(
-                    GenericNack(header.sequence_num, SmppCommandStatus.ESME_RINVCMDID)
-                )
-            except Exception:  # pylint: disable=broad-except
-                # The PDU was read: user application gets it even if it could not be answered
-                await self.hook.received(None, pdu, self.client_id)
-                raise
+            await self._send_data(
+                GenericNack(header.sequence_num, SmppCommandStatus.ESME_RINVCMDID)
+            )
             return None
 
         message_class: Type[SmppMessage] = MESSAGE_TYPE_MAP[header.smpp_command]
@@ -851,14 +847,7 @@ class ESME:
                     sequence_num=header.sequence_num,
                     pdu=pdu.hex(),
                 )
-            try:
-                await self._send_data(
-                    GenericNack(header.sequence_num, SmppCommandStatus.ESME_RSYSERR)
-                )
-            except Exception:  # pylint: disable=broad-except
-                # The PDU was read: user application gets it even if it could not be answered
-                await self.hook.received(None, pdu, self.client_id)
-                raise
+            await self._send_data(GenericNack(header.sequence_num, SmppCommandStatus.ESME_RSYSERR))
             return None
         if isinstance(smpp_message, DeliverSm):
             if not smpp_message.is_receipt():
